@@ -579,6 +579,13 @@ def generate_all(base_build_dir):
         groups["ed"] = {"obligations": er["obligations"], "failures": er["failures"]}
     except Exception as e:  # noqa: BLE001
         groups["ed"] = {"obligations": [], "failures": ["Edwards translator: %r" % (e,)]}
+    # lookup tables of the table-driven AES (src/bc/rijndael-alg-fst.c)
+    try:
+        import translate_aes
+        ar = translate_aes.generate()
+        groups["aes"] = {"obligations": ar["obligations"], "failures": ar["failures"]}
+    except Exception as e:  # noqa: BLE001
+        groups["aes"] = {"obligations": [], "failures": ["translate_aes: %r" % (e,)]}
     return {"groups": groups}
 
 
